@@ -10,7 +10,8 @@
    occupied, no empty value).  None = Go panic. *)
 From Coq Require Import List NArith Bool Arith.
 From GQ Require Import Lib.Key Model.C18 Proofs.C18_Base Proofs.C18_Ext Proofs.C18_Insert
-  Proofs.C18_Delete Proofs.C18_History Proofs.C18_Merkle Proofs.C18_Derive Proofs.C18_Main.
+  Proofs.C18_Delete Proofs.C18_History Proofs.C18_Merkle Proofs.C18_Derive Proofs.C18_Main
+  Proofs.C18_Copy.
 Import ListNotations.
 
 (* (1) trie.go:insert never panics, keeps the canonical form, stores the value and leaves every
@@ -128,7 +129,58 @@ Theorem dump_check_is_equality : forall a b, node_eqb a b = true <-> a = b.
 Proof. exact node_eqb_eq. Qed.
 Print Assumptions dump_check_is_equality.
 
+(* (6) copies (SecureTrie.Copy / CopyTrie / StateDB.Copy): several handles on one trie.  [mrun]
+   runs a history whose operations each address one handle; [MCopy h] adds a handle.
+   Operations that do not address handle h leave it exactly as it was ... *)
+Theorem copy_untouched_is_unchanged : forall ops hs hs' h,
+  mrun hs ops = Some hs' -> forallb (fun o => negb (addresses h o)) ops = true -> h < length hs ->
+  nth_error hs' h = nth_error hs h.
+Proof. exact mrun_untouched. Qed.
+Print Assumptions copy_untouched_is_unchanged.
+
+(* ... no operation on any handle panics and every handle stays a reachable canonical trie ... *)
+Theorem copies_never_panic : forall ops hs,
+  Forall Inv hs -> wf_mops ops -> in_range (length hs) ops = true ->
+  exists hs', mrun hs ops = Some hs' /\ Forall Inv hs'.
+Proof. exact mrun_no_panic. Qed.
+Print Assumptions copies_never_panic.
+
+(* ... each handle (the original and every copy) is the result of its own linear history [mhist]:
+   the writes made through it and, up to the copy, through its source; its content is that
+   history's "last write wins" and nothing written through another handle shows ... *)
+Theorem handle_refines_its_own_history : forall ops ts h t,
+  wf_mops ops -> mrun [Nil] ops = Some ts -> nth_error ts h = Some t ->
+  exists x, nth_error (mhist [[]] ops) h = Some x /\ wf_hist x /\ run Nil x = Some t /\ Inv t /\
+    forall k, get t k = apply_hist (fun _ => []) x k.
+Proof. exact handle_own_history. Qed.
+Print Assumptions handle_refines_its_own_history.
+
+(* ... and its node tree -- hence its root under any hash -- is that of a fresh trie built by ANY
+   history with the same content (what the harness compares Hash() of every handle with). *)
+Theorem handle_is_fresh_trie_of_its_content : forall ops ts h t y,
+  wf_mops ops -> mrun [Nil] ops = Some ts -> nth_error ts h = Some t -> wf_hist y ->
+  (forall k, wf_bytes k -> get t k = apply_hist (fun _ => []) y k) ->
+  run Nil y = Some t.
+Proof. exact handle_is_fresh_trie. Qed.
+Print Assumptions handle_is_fresh_trie_of_its_content.
+
 (* ---------- non-vacuity ---------- *)
+(* the shape of the seeded change C18_1: two keys under an extension, a copy, the original deletes
+   one of them (branch collapses, extension and leaf merge): the copy still is the two-key trie *)
+Example copy_nonvacuous :
+  let ops := [MUpd 0 [18;52] [1]; MUpd 0 [21;103] [2]; MCopy 0; MUpd 0 [21;103] []; MUpd 1 [18;52] []]%N in
+  wf_mops ops /\ in_range 1 ops = true /\
+  mrun [Nil] ops = Some [Short [1;2;3;4;16]%N (Val [1%N]); Short [1;5;6;7;16]%N (Val [2%N])] /\
+  mhist [[]] ops = [[([18;52], [1]); ([21;103], [2]); ([21;103], [])];
+                    [([18;52], [1]); ([21;103], [2]); ([18;52], [])]]%N /\
+  mrun [Nil] (firstn 4 ops) = Some [Short [1;2;3;4;16]%N (Val [1%N]);
+     Short [1%N] (Full [Nil; Nil; Short [3;4;16]%N (Val [1%N]); Nil; Nil; Short [6;7;16]%N (Val [2%N]);
+                        Nil; Nil; Nil; Nil; Nil; Nil; Nil; Nil; Nil; Nil; Nil])].
+Proof.
+  split; [repeat constructor; vm_compute; reflexivity|].
+  vm_compute. repeat split; reflexivity.
+Qed.
+
 (* keys that are prefixes of each other ([1] and [1;2]): the value slot of a full node is used, and
    deleting [1;2] collapses the full node back into a single leaf *)
 Example trie_nonvacuous :
